@@ -56,8 +56,8 @@ Section Main.
   Notation args_typed := (args_typed D C defs).
   Notation clause_typed := (clause_typed D C defs).
 
-  (* every definition other than main has its Core form, with the return continuation as last parameter *)
-  Hypothesis Hcallee : forall f d, ffind_def p f = Some d -> f <> "main" ->
+  (* every definition other than main - and main too when it is called - has its Core form, with the return continuation as last parameter *)
+  Hypothesis Hcallee : forall f d, ffind_def p f = Some d -> (f <> "main" \/ calls_main_prog p = true) ->
     exists a body, find (fun d' => cident_eqb (cdname d') (new_id f)) defs =
                    Some (mkcd (new_id f) (compile_ctx (fdctx d) ++ [mkcb (new_id a) CCns (compile_ty (fdret d))]) body).
 
@@ -722,7 +722,10 @@ Section Main.
   Proof.
     intros f args ret Ha G S cont t st s st' H Hg Hty Htd Hfv Hbd HS HU HK Hf. rewrite wc_unfold in H.
     apply wc_call_inv in H. destruct H as [args' [ret0 [Es [-> ->]]]].
-    rewrite tg_call in Hg. apply andb_prop in Hg. destruct Hg as [Hnm Hg]. apply negb_true_iff in Hnm. apply String.eqb_neq in Hnm.
+    rewrite tg_call in Hg. apply andb_prop in Hg. destruct Hg as [Hnm Hg].
+    assert (Hnm' : f <> "main" \/ calls_main_prog p = true).
+    { apply orb_prop in Hnm. destruct Hnm as [Hnm|Hnm]; [left; apply negb_true_iff in Hnm; apply String.eqb_neq in Hnm; exact Hnm | right; exact Hnm]. }
+    clear Hnm. rename Hnm' into Hnm.
     destruct (ffind_def p f) as [d|] eqn:Ed; [|discriminate].
     apply andb_prop in Hg. destruct Hg as [Hg Htdr]. apply andb_prop in Hg. destruct Hg as [Hga Hret]. apply ceq_ty in Hret.
     unfold tyo in Hty. simpl in Hty. injection Hty as <-.
